@@ -338,7 +338,10 @@ impl SearcherBuilder {
         let mut decode_builder = DecodeReaderBytesBuilder::new();
         decode_builder
             .encoding(self.config.encoding.as_ref().map(|e| e.0))
-            .utf8_passthru(true)
+            // A BOM overrides an explicit encoding. For a UTF-8 BOM that
+            // only happens when the transcoder is asked to build a decoder
+            // for it instead of passing the bytes through.
+            .utf8_passthru(self.config.encoding.is_none())
             .strip_bom(self.config.bom_sniffing)
             .bom_override(true)
             .bom_sniffing(self.config.bom_sniffing);
